@@ -146,6 +146,11 @@ def main() -> None:
             {"name": "tlc-generate", "path": "specs/Gen_*.tla", "serves_properties": sorted(CLAIMS), "kind_free_text": "TLC as exhaustive scenario/behaviour generator"},
             {"name": "tlc-monitor", "path": "specs/Trace_*.tla", "serves_properties": sorted(CLAIMS), "kind_free_text": "total TLA+ monitors validating traces recorded from the real code"},
             {"name": "replay-harness", "path": "harness/", "serves_properties": sorted(CLAIMS), "kind_free_text": "Python drivers/observers binding the specifications to /repo's working tree"},
+            # specification coverage beyond the listed properties (run with ./check X<nn> or tools/run_extras.sh; same contract, own findings files)
+            {"name": "x01-pagination", "path": "harness/x01.py", "serves_properties": [], "kind_free_text": "Pagination.tla: paginate_by_next, safety + liveness, every bounded server replayed on the real helper"},
+            {"name": "x02-writers", "path": "harness/x02.py", "serves_properties": ["C15"], "kind_free_text": "Writer.tla / RenderAst.tla: CodeWriter / LineWriter as a state machine (18 actions, every edge replayed), PythonConstructRenderer output read back with ast"},
+            {"name": "x03-imports", "path": "harness/x03.py", "serves_properties": ["C01", "C12"], "kind_free_text": "Imports.tla: ImportCollector / RenderContext import arithmetic judged against Python's own name resolution (TLA+ Resolve cross-checked with the real importer)"},
+            {"name": "x04-type-resolution", "path": "harness/x04.py", "serves_properties": ["C02", "C03"], "kind_free_text": "TypeResolve.tla: schema -> annotation; Admits(shape) vs Denotes(annotation), imports closed, stable, total"},
         ],
         "checks": checks,
         "not_applicable": na,
